@@ -22,7 +22,7 @@ PROPS = {
     ),
     "C03": dict(
         verus=["xrefstream", "strings", "names", "mainwriter"],
-        standins=["objects"],
+        standins=["objects", "writer-configs"],
         not_decided="text of classic xref entries ({:010} formatting of the recorded offsets), startxref, /Size, reference resolution, strict-parser acceptance (write_document's I/O sequence); buffered (object-stream) objects; names (see C30)",
     ),
     "C09": dict(
@@ -81,6 +81,7 @@ PROPS = {
     ),
     "C05": dict(
         verus=["rc4", "objkey"],
+        standins=["writer-configs"],
         kani=[K("c05_perm_print", "encryption/permissions.rs", "Permissions::set_print/can_print"),
               K("c05_perm_modify", "encryption/permissions.rs", "Permissions::set_modify_contents/can_modify_contents"),
               K("c05_perm_copy", "encryption/permissions.rs", "Permissions::set_copy/can_copy"),
